@@ -26,7 +26,7 @@ CONFINED = {
 }
 
 
-def rule_inline_constants(chk):
+def rule_inline_constants(chk, prefix="C18.inline"):
     """The buffer-address option exists for one HLSL flavour only; a module that compiles without it must compile with
     it. With it, Module::assign_api_bindings (bindmodel, is_buffer_address walked) places addresses as inline constants
     and the HLSL exporter writes ONE uint64_t per inline binding, asserting that the sizes agree: every inline block must
@@ -49,9 +49,9 @@ def rule_inline_constants(chk):
         r = m.run(decls, None, params)
         if len(r) == 2:
             if r[0] == "unreadable":
-                chk.note("C18.inline: assign_api_bindings is not readable on the model (%s); not decided" % (r[1],))
+                chk.note("%s: assign_api_bindings is not readable on the model (%s); not decided" % (prefix, r[1]))
                 return
-            chk.ob("C18.inline/" + name, False, "assign_api_bindings %s on a module with buffer addresses (%s)" % r, where(aab))
+            chk.ob(prefix + "/" + name, False, "assign_api_bindings %s on a module with buffer addresses (%s)" % r, where(aab))
             continue
         places, icb, _ = r
         bad = None
@@ -59,7 +59,7 @@ def rule_inline_constants(chk):
             cnt = sum(1 for p_ in places if p_ and p_[0] == g and p_[1] == "inline")
             if size != 8 * cnt:
                 bad = "group %s: the inline constant block is %s bytes for %d inline binding(s); the HLSL exporter writes one 8-byte member per binding and asserts the sizes agree: compile() aborts for HlslForVulkan with buffer addresses while the other targets succeed" % (g, size, cnt)
-        chk.ob("C18.inline/" + name, bad is None, bad or "every inline block is 8 bytes per binding placed in it", where(aab), sample={"scenario": name})
+        chk.ob(prefix + "/" + name, bad is None, bad or "every inline block is 8 bytes per binding placed in it", where(aab), sample={"scenario": name})
 
 
 def run(chk):
